@@ -672,6 +672,50 @@ def rule_support_resolve(ctx, px):
         ctx.ob(R, g.module.rel, f"{g.short} :: the loader's answer is used", used, "" if used else "lookup result discarded", c.lineno)
 
 
+def rule_include_listed(ctx, px):
+    R = "R-C08-INCLUDE-LISTED"
+    ctx.rule(
+        R,
+        "every file a built-in template pulls in (include / import / from-import / extends with a constant name) is one the "
+        "template enumeration can name: it exists next to the templates and carries the template suffix the enumeration filters by; "
+        "a file pulled in under another suffix is read on every run and its content is copied into the output, yet it is never listed",
+    )
+    from nvsa import j2front
+    ut = px.module("nunavut._utilities")
+    suffix = None
+    for n in ut.tree.body:
+        if isinstance(n, ast.Assign) and any(isinstance(t, ast.Name) and t.id == "TEMPLATE_SUFFIX" for t in n.targets) and isinstance(n.value, ast.Constant):
+            suffix = n.value.value
+    if not suffix:
+        raise AnalysisError("anchor missing: TEMPLATE_SUFFIX constant in nunavut._utilities")
+    # does the enumeration filter by suffix at all?  (if it lists every file, nothing can be missed)
+    f = px.func(LOADERS_MOD, "DSDLTemplateLoader.get_templates")
+    filtered = "TEMPLATE_SUFFIX" in ast.unparse(f.node) or "_filter_template_list_by_suffix" in ast.unparse(f.node)
+    ts = j2front.TemplateSet(ctx.root)
+    N = ts.nodes
+    n = dyn = 0
+    for lang in sorted({t.lang for t in ts.templates}):
+        for kind in sorted({t.kind for t in ts.templates if t.lang == lang}):
+            for t in ts.of_lang(lang, kind):
+                for node, stack in j2front.walk(t.ast):
+                    if not isinstance(node, (N.Include, N.Import, N.FromImport, N.Extends)):
+                        continue
+                    if not isinstance(node.template, N.Const) or not isinstance(node.template.value, str):
+                        dyn += 1
+                        continue
+                    target = node.template.value
+                    n += 1
+                    exists = (t.path.parent / target).is_file()
+                    ok = exists and (target.endswith(suffix) or not filtered)
+                    ctx.ob(R, t.rel, f"{t.name} pulls in `{target}`", ok,
+                           "" if ok else (f"`{target}` does not end in {suffix}: the enumeration printed by --list-inputs filters by that suffix, so this file - whose "
+                                          "content is copied into every generated page - is never named" if exists else f"`{target}` does not exist next to the template"),
+                           getattr(node, "lineno", None))
+    ctx.unit("template_pull_sites", n)
+    ctx.unit("dynamic_pull_sites_not_decided", dyn)
+    ctx.floor(R, n, 20)
+
+
 def rule_no_bytecode_cache(ctx, px):
     R = "R-C08-NO-CACHE"
     ctx.rule(R, "the Jinja environment is created without a bytecode cache (loading templates must not write to disk)")
@@ -711,4 +755,5 @@ def run(ctx):
     rule_template_listing(ctx, px)
     rule_loader_enumeration(ctx, px)
     rule_support_resolve(ctx, px)
+    rule_include_listed(ctx, px)
     rule_no_bytecode_cache(ctx, px)
